@@ -496,8 +496,28 @@ def crash_run(ctx, case, info=None):
     obs["before"] = before.stream()
     obs["full"] = full.stream()
     obs["nfiles_before"] = len(before.files)
+    if env.errored and env.crashed is None and obs["full"].startswith(obs["stream"]) and _aligned(obs["stream"]):
+        # the process carries on after the failed file operation: ONE more batch (a block small enough for any slack) in the same
+        # process image must land at the end of the record stream as it now is
+        fb = blk(serial + len(blocks), 0)
+        obs["follow_err"] = lib_call(p2p, [fb], path, L)
+        files, _ = R.read_dir(path) if os.path.isdir(path) else ({}, None)
+        got2 = {no: data for no, (name, data) in files.items()}
+        obs["follow_stream"] = b"".join(got2[k] for k in sorted(got2))
+        obs["follow_expected"] = obs["stream"] + R.record(MAGIC, fb)
+        obs["follow_sizes"] = {k: len(v) for k, v in got2.items()}
     shutil.rmtree(path, ignore_errors=True)
     return obs
+
+
+def _aligned(stream):
+    """the stream consists of whole records"""
+    o = 0
+    while o < len(stream):
+        if len(stream) - o < 8:
+            return False
+        o += 8 + int.from_bytes(stream[o + 4:o + 8], "little")
+    return o == len(stream)
 
 
 def judge_crash(case, obs):
@@ -526,6 +546,15 @@ def judge_crash(case, obs):
             out.append(("C19/io-error/swallowed", f"the call returned normally although a write failed and the files hold {len(s)}B of {len(f)}B {tag}"))
         if any(v > case["L"] for v in obs["sizes"].values()):
             out.append(("C19/io-error/oversize", f"a file exceeds the limit {tag}"))
+        if not out and "follow_stream" in obs:
+            if obs["follow_err"]:
+                pass          # refusing further writes after a failure is not judged
+            elif obs["follow_stream"] != obs["follow_expected"]:
+                out.append(("C19/io-error/next-batch-misplaced", f"the batch written by the same process AFTER the failed one is not at the end of the record "
+                            f"stream: files {obs['follow_sizes']} read in numeric order give {len(obs['follow_stream'])}B that differ from the "
+                            f"{len(obs['follow_expected'])}B expected {tag}"))
+            elif any(v > case["L"] for v in obs["follow_sizes"].values()):
+                out.append(("C19/io-error/oversize", f"a file exceeds the limit after the follow-up batch {tag}"))
         return out
     if obs["crashed"] is None:
         return []   # no crash in this execution: the history part judges complete calls
